@@ -37,6 +37,30 @@ Proof.
 Qed.
 Print Assumptions C20_only_approved_outcome.
 
+(* (a') The cache itself is guarded: over every history, for every variant, the
+   cached bytes only change to what the server offered, together with their
+   checksum, after the user approved (or when that checksum already was the
+   approved one), and a consistent cache stays consistent.  In particular a
+   declined run (104) leaves nothing behind that --offline, a still valid
+   --expiry or a fallback could execute later. *)
+Theorem C20_content_guarded :
+  forall digest V http h st,
+    forallb (mon_content_guarded digest) (run digest V http st h) = true.
+Proof. exact (fun digest V http => run_forall digest (mon_content_guarded digest) V http (step_content_guarded digest V http)). Qed.
+Print Assumptions C20_content_guarded.
+
+(* (a'') What ran, judged against what the user approved: after any history, the
+   version an invocation runs has a digest among those the user approved (--yes or
+   y on a terminal while that version was on offer) in that history or in this
+   invocation.  The approvals are computed from the inputs alone. *)
+Theorem C20_ran_was_approved :
+  forall digest V http h s i,
+    mon_ever_approved digest
+      (step_obs digest V http (final digest V http empty_cache h) s i,
+       approvals_after digest [] (h ++ [(s, i)])) = true.
+Proof. exact ran_was_approved. Qed.
+Print Assumptions C20_ran_was_approved.
+
 (* Kills.  The three cache files are written one after the other (checksum,
    timestamp, content; C20_tie_read_shape); a process killed in between leaves a
    cache in which (a) as stated above fails: an older approved version runs while
